@@ -24,7 +24,7 @@ import numpy as np
 mp.mp.dps = 50
 EPS = float(np.finfo(float).eps)
 
-KERNEL_NPAR = {"SE": lambda d: 1 + d, "RQ": lambda d: 2 + d, "WN": lambda d: 1}
+KERNEL_NPAR = {"SE": lambda d: 1 + d, "RQ": lambda d: 2 + d, "WN": lambda d: 1, "CP": lambda d: 2 * (1 + d) + 2}
 MEAN_NPAR = {"C": lambda d: 1, "L": lambda d: 1 + d, "Q": lambda d: 1 + 2 * d}
 
 
@@ -94,7 +94,55 @@ class WN:
         return [[mp.mpf(0)] * self.d for _ in range(self.d)]
 
 
-KERNELS = {"SE": SE, "RQ": RQ, "WN": WN}
+class CP:
+    """Change-point kernel of two SE kernels along axis 0 (class docstring of ChangePoint):
+    K(u,v) = K1(u,v) (1-f(u))(1-f(v)) + K2(u,v) f(u) f(v),  f(x) = 1/(1+exp(-(x_0-c)/w)),
+    theta = [theta(K1), theta(K2), c, w]  (c, w not logarithmic)."""
+
+    def __init__(self, theta, d):
+        self.parts = [SE(list(theta[: 1 + d]), d), SE(list(theta[1 + d : 2 + 2 * d]), d)]
+        self.c, self.w = M(theta[2 + 2 * d]), M(theta[3 + 2 * d])
+        self.d = d
+
+    def _g(self, x):
+        """weights (1-f, f) of the two regions and their derivatives with respect to x_0"""
+        f = 1 / (1 + mp.exp(-(x[0] - self.c) / self.w))
+        df = f * (1 - f) / self.w
+        return (1 - f, f), (-df, df)
+
+    def k(self, u, v):
+        gu, _ = self._g(u)
+        gv, _ = self._g(v)
+        return sum(p.k(u, v) * gu[a] * gv[a] for a, p in enumerate(self.parts))
+
+    def dk(self, u, v):
+        gu, dgu = self._g(u)
+        gv, _ = self._g(v)
+        out = [mp.mpf(0)] * self.d
+        for a, p in enumerate(self.parts):
+            pd = p.dk(u, v)
+            for i in range(self.d):
+                out[i] += pd[i] * gu[a] * gv[a]
+            out[0] += p.k(u, v) * dgu[a] * gv[a]
+        return out
+
+    def d2k(self, u, v):
+        gu, dgu = self._g(u)
+        gv, dgv = self._g(v)
+        d = self.d
+        out = [[mp.mpf(0)] * d for _ in range(d)]
+        for a, p in enumerate(self.parts):
+            kk, du, dv, dd = p.k(u, v), p.dk(u, v), p.dk(v, u), p.d2k(u, v)  # d_v k(u,v) = d_u k(v,u)
+            for i in range(d):
+                for j in range(d):
+                    out[i][j] += dd[i][j] * gu[a] * gv[a]
+                out[i][0] += du[i] * gu[a] * dgv[a]
+                out[0][i] += dv[i] * dgu[a] * gv[a]
+            out[0][0] += kk * dgu[a] * dgv[a]
+        return out
+
+
+KERNELS = {"SE": SE, "RQ": RQ, "WN": WN, "CP": CP}
 
 
 class Kernel:
@@ -384,6 +432,10 @@ def selftest_kernel_derivatives():
         (["RQ"], [0.1, 0.7, 0.3, -0.5], 2),
         (["SE", "WN"], [0.2, 0.1, -1.0], 1),
         (["RQ"], [-0.4, -1.0, 0.2, 0.0, 0.6], 3),
+        (["SE", "SE", "WN"], [0.3, -0.2, 0.4, -0.1, 0.5, -0.6, -1.0], 2),
+        (["RQ", "SE"], [0.1, 0.7, 0.3, -0.5, -0.2, 0.6, 0.1], 2),
+        (["CP"], [0.3, -0.2, 0.4, -0.1, 0.5, -0.6, 0.6, 0.45], 2),
+        (["CP"], [0.2, 0.1, -0.3, -0.4, 0.9, 0.3], 1),
     ):
         K = Kernel(kinds, theta, d)
         u = [M(0.3 + 0.4 * i) for i in range(d)]
